@@ -74,3 +74,33 @@ package hashmap
 //@   requires Inv(m)
 //@   modifies map(m.m)
 //@   ensures [C01 C15 C17] Inv(m) && Card(m) == 0 && (forall k like keyof(m.m) :: !Has(m, k))
+
+// ---- JSON (C11 round trip, C12 replace / sound / atomic) ----
+
+//@ func Map.ToJSON
+//@   requires Inv(m)
+//@   modifies nothing
+//@   ensures [C11 C17 C18] result1 == nil && fresh(arr(result0)) && jobj_kind(result0, keyof(m.m), valof(m.m)) == 3 && jobj_card(result0, keyof(m.m), valof(m.m)) == Card(m)
+//@   ensures [C11] content: forall k like keyof(m.m) :: (jobj_has(result0, k, valof(m.m)) <==> Has(m, k)) && (Has(m, k) ==> jobj_val(result0, k, valof(m.m)) == Val(m, k))
+
+//@ func Map.MarshalJSON
+//@   requires Inv(m)
+//@   modifies nothing
+//@   ensures [C11 C17 C18] result1 == nil && fresh(arr(result0)) && jobj_kind(result0, keyof(m.m), valof(m.m)) == 3 && jobj_card(result0, keyof(m.m), valof(m.m)) == Card(m)
+//@   ensures [C11] content: forall k like keyof(m.m) :: (jobj_has(result0, k, valof(m.m)) <==> Has(m, k)) && (Has(m, k) ==> jobj_val(result0, k, valof(m.m)) == Val(m, k))
+
+//@ func Map.FromJSON
+//@   requires Inv(m)
+//@   modifies m.m
+//@   ensures [C12 C17] Inv(m) && (result == nil <==> jobj_kind(data, keyof(m.m), valof(m.m)) >= 2)
+//@   ensures [C12] atomic: result != nil ==> (forall k like keyof(m.m) :: (Has(m, k) <==> old(Has(m, k))) && (Has(m, k) ==> Val(m, k) == old(Val(m, k))))
+//@   ensures [C11 C12] loaded: jobj_kind(data, keyof(m.m), valof(m.m)) == 3 ==> (forall k like keyof(m.m) :: (jobj_has(data, k, valof(m.m)) <==> Has(m, k)) && (Has(m, k) ==> Val(m, k) == jobj_val(data, k, valof(m.m)))) && Card(m) == jobj_card(data, keyof(m.m), valof(m.m))
+//@   ensures [C12] null: jobj_kind(data, keyof(m.m), valof(m.m)) == 2 ==> Card(m) == 0
+
+//@ func Map.UnmarshalJSON
+//@   requires Inv(m)
+//@   modifies m.m
+//@   ensures [C12 C17] Inv(m) && (result == nil <==> jobj_kind(bytes, keyof(m.m), valof(m.m)) >= 2)
+//@   ensures [C12] atomic: result != nil ==> (forall k like keyof(m.m) :: (Has(m, k) <==> old(Has(m, k))) && (Has(m, k) ==> Val(m, k) == old(Val(m, k))))
+//@   ensures [C11 C12] loaded: jobj_kind(bytes, keyof(m.m), valof(m.m)) == 3 ==> (forall k like keyof(m.m) :: (jobj_has(bytes, k, valof(m.m)) <==> Has(m, k)) && (Has(m, k) ==> Val(m, k) == jobj_val(bytes, k, valof(m.m)))) && Card(m) == jobj_card(bytes, keyof(m.m), valof(m.m))
+//@   ensures [C12] null: jobj_kind(bytes, keyof(m.m), valof(m.m)) == 2 ==> Card(m) == 0
